@@ -117,6 +117,42 @@ func c06Body(sc c06Scn) func(x *vs.Exec) {
 		})
 		var closeStart, closeEnd int64
 
+		// inbound transport connections exist before the swarm hears of them; the remote's stream threads are
+		// created first (lowest ids) so that "the remote opens a stream early" is part of the default schedule
+		for i, r := range runs {
+			if !r.spec.Outbound {
+				tp := env.TCP
+				if r.spec.Limited {
+					tp = env.Relay
+				}
+				tp.mu.Lock()
+				tp.nconn++
+				name := fmt.Sprintf("%s-in#%d", tp.name, tp.nconn)
+				tp.mu.Unlock()
+				r.fc = fxNewConn(name, tp, env.Local, fxID(r.spec.Peer), ma.StringCast(fmt.Sprintf("/ip4/1.2.3.%d/tcp/4001", 10+i)), tp.limited)
+				byFx[r.fc] = r
+			}
+			if r.spec.Stream {
+				s.Go(fmt.Sprintf("remote-stream%d", i), func() {
+					if r.fc == nil {
+						// outbound: the transport connection exists only once the dial completed
+						_, _, stopped := vs.RecvOr(r.seen, r.admitted)
+						if stopped && r.fc == nil {
+							return
+						}
+					} else {
+						vs.Yield() // inbound: the remote may open its stream at any time
+					}
+					if !r.fc.isClosed() {
+						select {
+						case r.fc.incoming <- &fxStream{conn: r.fc, id: 99, inbound: true, done: make(chan struct{})}:
+						default:
+						}
+						vs.Yield()
+					}
+				})
+			}
+		}
 		for i, r := range runs {
 			id := fxID(r.spec.Peer)
 			if r.spec.Outbound {
@@ -145,16 +181,6 @@ func c06Body(sc c06Scn) func(x *vs.Exec) {
 				})
 				s.Go(fmt.Sprintf("dial%d-completes", i), func() { tp.Complete(addr, fxOK) })
 			} else {
-				tp := env.TCP
-				if r.spec.Limited {
-					tp = env.Relay
-				}
-				tp.mu.Lock()
-				tp.nconn++
-				name := fmt.Sprintf("%s-in#%d", tp.name, tp.nconn)
-				tp.mu.Unlock()
-				r.fc = fxNewConn(name, tp, env.Local, id, ma.StringCast(fmt.Sprintf("/ip4/1.2.3.%d/tcp/4001", 10+i)), tp.limited)
-				byFx[r.fc] = r
 				s.Go(fmt.Sprintf("inbound%d", i), func() {
 					c, err := env.Swarm.addConn(r.fc, network.DirInbound)
 					r.err = err
@@ -193,21 +219,6 @@ func c06Body(sc c06Scn) func(x *vs.Exec) {
 				})
 			case "in-connected":
 				r.closeReq = true
-			}
-			if r.spec.Stream {
-				s.Go(fmt.Sprintf("remote-stream%d", i), func() {
-					_, _, stopped := vs.RecvOr(r.seen, r.admitted)
-					if stopped && r.fc == nil {
-						return
-					}
-					if !r.fc.isClosed() {
-						select {
-						case r.fc.incoming <- &fxStream{conn: r.fc, id: 99, inbound: true, done: make(chan struct{})}:
-						default:
-						}
-						vs.Yield()
-					}
-				})
 			}
 		}
 		if sc.SwarmClose {
@@ -403,7 +414,7 @@ func c06Scenarios(thorough bool) []c06Scn {
 		{Name: "inbound closed from inside Connected", Conns: []c06ConnSpec{in("P", "in-connected", true)}, Notifiees: 2},
 		{Name: "outbound dial + app-close as soon as visible", Conns: []c06ConnSpec{{Peer: "P", Outbound: true, Closer: "app"}}, Notifiees: 1},
 		{Name: "inbound vs Swarm.Close", Conns: []c06ConnSpec{in("P", "", true)}, SwarmClose: true, Notifiees: 1},
-		{Name: "direct + limited to one peer, direct closes", Conns: []c06ConnSpec{in("P", "app-after", false), {Peer: "P", Limited: true}}, Notifiees: 1},
+		{Name: "direct + limited to one peer, both close", Conns: []c06ConnSpec{in("P", "app-after", false), {Peer: "P", Limited: true, Closer: "remote"}}, Notifiees: 1},
 		{Name: "two inbound of one peer, both close", Conns: []c06ConnSpec{in("P", "app", false), in("P", "remote", false)}, Notifiees: 1},
 	}
 	if thorough {
